@@ -61,7 +61,7 @@ def run(ctx):
     drv = vlib.ocaml_build("wire")
     r = ctx.sub_rng("c03")
     cat = wg.catalogue()
-    per_type = 6 if thorough else 2
+    per_type = 10 if thorough else 2
     import time
     stages = ctx.extra.setdefault("stage_seconds", {})
     t_last = [time.time()]
@@ -112,13 +112,17 @@ def run(ctx):
             cases.append(("big:" + cls, ty, t, bo, off, nf, pre + enc, " ".join(toks), len(enc), True))
             # the FIRST length field of a big encoding (the big one): off by a little, and beyond the limit
             order = "big" if bo == "be" else "little"
-            firstlen = next((i for i in range(0, min(len(enc) - 3, 24)) if (off + i) % 4 == 0 and int.from_bytes(enc[i:i + 4], order) >= 250), None)
+            try:
+                lb, marks = wg.layout(bo == "be", off, toks)
+            except Exception:
+                lb, marks = None, []
+            firstlen = next((p for (k, p, n) in marks if k in ("alen", "slen") and int.from_bytes(enc[p:p + 4], order) >= 250), None) if lb == enc else None
             if firstlen is not None:
                 v = int.from_bytes(enc[firstlen:firstlen + 4], order)
                 for name, nv, tail in (("len-1", v - 1, b""), ("len+1", v + 1, b"\x00"), ("len-8", v - 8, b""), ("len+8", v + 8, bytes(8)),
                                        ("len=2^26+1", (1 << 26) + 1, b"")):
                     b = bytearray(enc)
-                    b[firstlen:firstlen + 4] = nv.to_bytes(4, order)
+                    b[firstlen:firstlen + 4] = (nv & 0xFFFFFFFF).to_bytes(4, order)
                     cases.append(("big-corrupt:" + name, ty, t, bo, off, nf, pre + bytes(b) + tail, None, None, True))
             continue
         cases.append(("valid", ty, t, bo, off, nf, pre + enc, " ".join(toks), len(enc), False))
@@ -130,6 +134,10 @@ def run(ctx):
                 ctx.count("layout-differs (corruptions of this value are not aimed)")
                 continue
             cases.append(("corrupt:" + kind, ty, t, bo, off, nf, pre + cb, None, None, False))
+    for line in wg.corpus_lines("C03"):
+        f = line.split(" ")
+        if f[0] != "BODY":
+            cases.append(("corpus", f[3], wg.parse_ext(f[3]), f[0], int(f[1]), int(f[2]), bytes.fromhex(f[4]) if f[4] != "-" else b"", None, None, False))
     for _ in range(4000 if thorough else 400):
         ty = r.choice(cat)
         t = wg.parse_ext(ty)
@@ -193,7 +201,7 @@ def run(ctx):
         sl = []
         for ci in sus:
             f = lines[3 * ci + 1].split(" ")
-            f[3] = "1000000"
+            f[3] = "4294967296"        # more descriptors than any index can name
             sl.append(" ".join(f))
         ok, sus_out, err = vlib.par_run_lines(drv, [], sl)
         if not ok:
@@ -407,6 +415,10 @@ def glue(ctx, exe, drv, thorough):
         cases.append(("signature+1", bo, sig + more, buf, None))
         if len(tys) > 1:
             cases.append(("signature-1", bo, "".join(wg.erased(wg.parse_ext(ty)) for ty in tys[:-1]), buf, None))
+    for line in wg.corpus_lines("C03"):
+        f = line.split(" ")
+        if f[0] == "BODY":
+            cases.append(("corpus", f[1], bytes.fromhex(f[2]).decode() if f[2] != "-" else "", bytes.fromhex(f[3]) if f[3] != "-" else b"", None))
     cases.append(("empty", "le", "", b"", True))
     cases.append(("empty", "be", "", b"", True))
     cases.append(("trailing", "le", "", b"\x07\x07", None))
@@ -427,6 +439,21 @@ def glue(ctx, exe, drv, thorough):
     if not ok:
         ctx.tie_broken("extracted decoder model crashed (glue)", err)
         return 0
+    # a corrupted variant signature may name a descriptor (`h`): validate() cannot know how many descriptors the message has,
+    # the value decoders refuse index 0 of none. Allowed exactly when decoding with an unbounded descriptor count (model) succeeds
+    # and the value holds a descriptor (the hypothesis of C03_agree_param_fds), as in the main stream.
+    sus = [ci for ci, c in enumerate(cases) if c[2] and "v" in c[2] and split_res(out[5 * ci + 3])[0] == "ok" and split_res(out[5 * ci + 4])[0] == "err"]
+    fd_in_variant = set()
+    if sus:
+        ok, sus_out, err = vlib.par_run_lines(drv, [], ["UP %s 0 4294967296 %s %s" % (cases[ci][1], cases[ci][2], cases[ci][3].hex() or "-") for ci in sus])
+        if not ok:
+            ctx.tie_broken("extracted decoder model crashed (glue)", err)
+            return 0
+        for ci, o in zip(sus, sus_out):
+            st, n, toks = split_res(o)
+            if st == "ok" and "h" in toks.split(" ")[::1] and any(a == "h" and c.isdigit() for a, c in zip(toks.split(" "), toks.split(" ")[1:])):
+                fd_in_variant.add(ci)
+        ctx.count("glue:variant_holds_descriptor_not_in_message", len(fd_in_variant))
     for ci, (kind, bo, sig, buf, known) in enumerate(cases):
         bv, ba, bb, vr, up = out[5 * ci:5 * ci + 5]
         ctx.case(("glue", lines[5 * ci]), nontrivial=True, sample={"case": lines[5 * ci][:160], "validate": bv, "unmarshall_all": ba[:80]} if ci % 997 == 0 else None)
@@ -458,7 +485,7 @@ def glue(ctx, exe, drv, thorough):
                                                         "not (every value decodes and all bytes are used)" if st == "ok" else "every value decodes and all bytes are used")
                 elif why is None and st == "ok" and wg.canon(vals) != wg.canon(v_up):
                     why = "%s returns other values than the dynamic decoder value by value" % name
-            if why is None and (ba.startswith("ok")) != (bv == "ok"):
+            if why is None and (ba.startswith("ok")) != (bv == "ok") and ci not in fd_in_variant:
                 why = "validate() and unmarshall_all disagree on accepting a body"
         if why:
             ctx.disagreements_checked += 1
